@@ -463,7 +463,13 @@ def pc_slice(it, o, lo, hi):
     b = n if hi is None or isinstance(hi, SNoneT) else _zi(hi)
     if it.ex.feasible(z3.Not(z3.And(a >= 0, a <= n, b >= a))):
         return None
-    return simp(ssub(o.t, simp(a), simp(b - a)))
+    t = simp(ssub(o.t, simp(a), simp(b - a)))
+    if getattr(it.ex, "inbounds_lengths", False) and z3.is_app(t) and t.decl().kind() == z3.Z3_OP_SEQ_EXTRACT and not it.ex.feasible(b > n):
+        # opt-in (scenario option inbounds_lengths=True): the path condition also implies hi <= len(o), so the slice has exactly
+        # hi - lo characters; remembered for this path so that len() of the slice is that integer term instead of a clamping ITE
+        import pyvc.core as _core
+        _core.INBOUNDS[t.get_id()] = (t, simp(b - a))
+    return t
 
 
 def getitem_v(it, o, idx):
@@ -1350,6 +1356,8 @@ def f_getattr(it, o, name, *default):
             return default[0]
         if isinstance(o, SConst) and not hasattr(o.obj, n):
             return default[0]
+        if isinstance(o, SNoneT) and not hasattr(None, n):
+            return default[0]
     return it.getattr_(o, n)
 
 
@@ -1501,6 +1509,11 @@ def f_dict(it, x=None, **kw):
 def f_range(it, *a):
     vals = [it.resolve(x).concrete() for x in a]
     if any(v is None for v in vals):
+        rs = [it.resolve(x) for x in a]
+        if len(rs) <= 2 and all(isinstance(x, (SInt, SBool)) for x in rs):
+            # range(lo, hi) with symbolic bounds: a for-loop over it is unrolled to the scenario's max_unroll (labelled bounded)
+            lo, hi = (SInt(0), rs[0]) if len(rs) == 1 else (rs[0], rs[1])
+            return SConst(("srange", lo, hi))
         raise Unsupported("range with symbolic bounds (needs loop invariant)")
     return SList([SInt(i) for i in range(*vals)])
 
